@@ -134,6 +134,48 @@ pub fn dispatch(v: &Value) -> Value {
             let src = s(v, "src");
             json!({"rest": hk::skip_trivia(&src), "comment": hk::comment(&src).map(|(c, n)| json!([c, n]))})
         }
+        "hex" => {
+            // every char code given -> 4 bools
+            let out: Vec<Value> = v["chars"].as_array().unwrap().iter().map(|c| {
+                let ch = char::from_u32(c.as_u64().unwrap() as u32).unwrap_or('\u{fffd}');
+                json!(hk::hex_to_bools(ch).to_vec())
+            }).collect();
+            json!({"ok": out})
+        }
+        "bit_string_value" => {
+            let src = s(v, "src");
+            match hk::bit_string_value(&src) {
+                None => json!({"none": true}),
+                Some((Ok(bits), rest)) => json!({"bits": bits, "rest": rest}),
+                Some((Err(names), rest)) => json!({"names": names, "rest": rest}),
+            }
+        }
+        "cstring" => {
+            let src = s(v, "src");
+            match hk::cstring(&src) {
+                None => json!({"none": true}),
+                Some((st, rest)) => json!({"chars": st.chars().map(|c| c as u32).collect::<Vec<_>>(), "rest": rest}),
+            }
+        }
+        "octets_to_bits" => {
+            let bytes: Vec<u8> = v["bytes"].as_array().unwrap().iter().map(|b| b.as_u64().unwrap() as u8).collect();
+            json!({"bits": hk::octets_to_bits(&bytes)})
+        }
+        "bits_to_octets" => {
+            let bits: Vec<bool> = v["bits"].as_array().unwrap().iter().map(|b| b.as_bool().unwrap()).collect();
+            json!({"bytes": hk::bits_to_octets(&bits)})
+        }
+        "named_bits" => {
+            let highest = v["highest"].as_i64().unwrap() as i128;
+            let chosen: Vec<String> = v["chosen"].as_array().unwrap().iter().map(|x| x.as_str().unwrap().to_string()).collect();
+            let dist: Vec<(String, i128)> = v["dist"].as_array().unwrap().iter().map(|x| (x[0].as_str().unwrap().to_string(), x[1].as_i64().unwrap() as i128)).collect();
+            json!({"bits": hk::named_bits(highest, &chosen, &dist)})
+        }
+        "oid_well_known" => {
+            let name = v.get("name").and_then(|x| x.as_str()).map(|x| x.to_string());
+            let root = v.get("root").and_then(|x| x.as_u64()).map(|x| x as u8);
+            json!({"arc": hk::oid_well_known(name.as_ref(), root).map(|x| x as u64)})
+        }
         "charset" => {
             let st = crate::ir::string_type(v.get("cs")).unwrap();
             let cs: Vec<u32> = hk::character_set(st).into_iter().map(|c| c as u32).collect();
